@@ -22,7 +22,8 @@ RULE = (
     "every binding equal (both unroll modes); (b) generated DBC files equal byte for byte; (c) serde.encode bytes equal for "
     "the same value and equal to the reference canonical bytes, and decode of those bytes equal; (d) generated C: frames "
     "returned by can_encode_msg_* equal and equal to the reference packing; (e) generated C++: static and reflection-loaded "
-    "codec bytes equal (twin programs compiled and run; see compiled engines). Non-trivial = the permutation moves a field "
+    "codec bytes equal (twin programs compiled and run; see compiled engines); (f) the TypeVisitor walk used by `fcp describe` "
+    "equal. Non-trivial = the permutation moves a field "
     "across a field of a different wire width or type; distinct by sha1(text of S, text of S')."
 )
 ASSUMPTIONS = [
@@ -72,6 +73,17 @@ def check_codec(s: M.Schema, s2: M.Schema, name: str, vals: List[Any], known: An
     f2, _t2, e2 = frontend.parse_schema(s2)
     if f1 is None or f2 is None:
         return "__frontend__"
+    # (f) the type visitor (used by `fcp describe` and the C++ type mapping) must walk fields by id too
+    try:
+        from fcp.describe import DescribeVisitor, flatten
+        from fcp.specs.type import StructType
+
+        w1 = [flatten(DescribeVisitor(f1).visit(StructType(st_.name))) for st_ in s.structs]
+        w2 = [flatten(DescribeVisitor(f2).visit(StructType(st_.name))) for st_ in s.structs]
+    except Exception as e:
+        return f"(f) type visitor raised {type(e).__name__}: {e}"
+    if w1 != w2:
+        return f"(f) TypeVisitor/describe order changes with declaration order: {w1} vs {w2}"
     for v in vals:
         ref = refcodec.encode(s, name, v)
         try:
